@@ -438,9 +438,113 @@ func checkC10(a *checkArgs, r *Result) error {
 		}
 	}
 	wg.Wait()
+	multiFileRuns(r, gxz)
 	r.Extra["scenarios"] = len(scs)
 	r.Extra["driver_requests"] = dp.Requests()
 	return nil
+}
+
+type gxzMultiCase struct {
+	Op     string   `json:"op"`
+	Mode   string   `json:"mode"`
+	Format string   `json:"format"`
+	Files  []string `json:"files"`
+	Bad    int      `json:"failing_file_index"`
+	Why    string   `json:"why_it_fails"`
+}
+
+// multiFileRuns: one gxz run over three files of which exactly one cannot be processed (first, middle or last):
+// the run must exit non-zero, the failing file must be left untouched without debris, and the other two must be
+// converted completely (a failure never spills over, a success never hides it).
+func multiFileRuns(r *Result, gxz string) {
+	payloads := [][]byte{bytes.Repeat([]byte("first file\n"), 300), genText(rand.New(rand.NewSource(3)), 5000), bytes.Repeat([]byte{7}, 2000)}
+	for _, mode := range []string{"compress", "decompress"} {
+		for _, format := range []string{"xz", "lzma"} {
+			for bad := 0; bad < 3; bad++ {
+				for _, why := range []string{"corrupt-or-target-exists", "missing"} {
+					dir, err := os.MkdirTemp("", "gxzmulti")
+					if err != nil {
+						return
+					}
+					ext := "." + format
+					var args, inNames, outNames []string
+					var inData [][]byte
+					if mode == "decompress" {
+						args = append(args, "-d")
+					}
+					args = append(args, "-F", format)
+					for i := 0; i < 3; i++ {
+						name := fmt.Sprintf("f%d.dat", i)
+						in, out := name, name+ext
+						d := payloads[i]
+						if mode == "decompress" {
+							in, out = name+ext, name
+							d = compressWith(format, payloads[i])
+						}
+						if i == bad {
+							switch {
+							case why == "missing":
+								d = nil
+							case mode == "decompress":
+								d = append([]byte{}, d...)
+								d[len(d)/2] ^= 0x55
+								d = d[:len(d)-3]
+							default:
+								os.WriteFile(filepath.Join(dir, out), []byte("pre-existing target\n"), 0o644)
+							}
+						}
+						if d != nil {
+							os.WriteFile(filepath.Join(dir, in), d, 0o644)
+						}
+						inNames, outNames, inData = append(inNames, in), append(outNames, out), append(inData, d)
+						args = append(args, in)
+					}
+					cmd := exec.Command(gxz, args...)
+					cmd.Dir = dir
+					cmd.Run()
+					code := cmd.ProcessState.ExitCode()
+					cs := gxzMultiCase{Op: "gxz-multi", Mode: mode, Format: format, Files: inNames, Bad: bad, Why: why}
+					r.Count(fmt.Sprint("multi", mode, format, bad, why), true)
+					r.Inc("multi_file_runs")
+					if code == 0 {
+						r.Violate("counterexample", fmt.Sprintf("multi-file exit status 0 although file %d failed (%s %s)", bad, mode, why), cs,
+							"a run in which one file could not be processed exited with status 0")
+					}
+					for i := 0; i < 3; i++ {
+						got, gerr := os.ReadFile(filepath.Join(dir, inNames[i]))
+						out, oerr := os.ReadFile(filepath.Join(dir, outNames[i]))
+						if i == bad {
+							if inData[i] != nil && (gerr != nil || !bytes.Equal(got, inData[i])) {
+								r.Violate("counterexample", fmt.Sprintf("multi-file failing input not left untouched (%s)", mode), cs, "the file that could not be processed was removed or changed")
+							}
+							continue
+						}
+						okOut := false
+						if oerr == nil {
+							if mode == "compress" {
+								dec, ok := decodes(format, out)
+								okOut = ok && bytes.Equal(dec, payloads[i])
+							} else {
+								okOut = bytes.Equal(out, payloads[i])
+							}
+						}
+						if !okOut || gerr == nil {
+							r.Violate("counterexample", fmt.Sprintf("multi-file healthy file %d not processed (%s, failing file %d)", i, mode, bad), cs,
+								"a file next to a failing one was not converted completely (output missing/wrong or input still present)")
+						}
+					}
+					if ents, err := os.ReadDir(dir); err == nil {
+						for _, e := range ents {
+							if strings.HasSuffix(e.Name(), ".compress") || strings.HasSuffix(e.Name(), ".decompress") {
+								r.Violate("counterexample", "multi-file temporary file left", cs, "temporary file "+e.Name()+" left behind")
+							}
+						}
+					}
+					os.RemoveAll(dir)
+				}
+			}
+		}
+	}
 }
 
 func init() { checks["C10"] = checkC10 }
